@@ -413,5 +413,12 @@ func vh_C01_toPtr() {
 		}
 	})
 	vfNoPanic("nopanic-none", func() { vfAssert("none", None.ToPtr() == nil) })
+	vfNoPanic("nopanic-none", func() {
+		dst := x
+		c := None.CloneTo(&dst) // an absent Maybe clones to an absent Maybe and leaves the destination alone
+		vfAssert("none-stays-none", vfAnd(c.IsNil(), !c.IsPresent()))
+		vfAssert("none", dst == x)
+		vfAssert("none-stays-none", None.Clone().IsNil())
+	})
 	vfReach("end")
 }
